@@ -4938,6 +4938,15 @@ impl<'a, 'graph> Builder<'a, 'graph> {
     // first load the package information
     let mut pending_resolutions =
       std::mem::take(&mut self.state.jsr.pending_resolutions);
+    // The same jsr specifier can be queued by several modules before it is
+    // first resolved. Resolve it once: a second resolution could unify onto
+    // a version selected in between and would then overwrite the redirect
+    // (orphaning the module loaded for the first one) or leave an error
+    // entry next to it.
+    {
+      let mut seen_specifiers = HashSet::with_capacity(pending_resolutions.len());
+      pending_resolutions.retain(|r| seen_specifiers.insert(r.specifier.clone()));
+    }
     let mut pending_version_resolutions =
       Vec::with_capacity(pending_resolutions.len());
     let should_collect_top_level_nvs =
